@@ -343,6 +343,20 @@ static std::string respond(Toks& k)
            << " msgs=" << canon_msgs(msgs.str());
         return ss.str();
     }
+    if (cmd == "readlines") {
+        auto bytes = p_bytes(k);
+        File file = File::create_temporary_with_content(bytes);
+        std::ostringstream ss;
+        std::vector<Line> lines;
+        NewLine newline;
+        std::string line;
+        while (file.get_line(line, &newline))
+            lines.emplace_back(line, newline);
+        ss << "ok " << lines.size();
+        for (const auto& l : lines)
+            ss << ' ' << hex(l.content) << ' ' << show_nl(l.newline);
+        return ss.str();
+    }
     if (cmd == "strip") {
         auto path = p_bytes(k);
         auto n = p_int(k);
